@@ -51,6 +51,7 @@ type caseOut struct {
 	nontrivial        bool
 	sample            any
 	fatal             string
+	disc              *discCase // the selection, when the reference decides how a discovery registration over it maps (discovery_test.go)
 }
 
 func (o *caseOut) find(key, what string, witness any) {
@@ -130,28 +131,10 @@ func TestCheck(t *testing.T) {
 	}
 	wg.Wait()
 	for i, o := range outs {
-		if o.fatal != "" {
-			r.Fatalf("case %d: %s", i, o.fatal)
-		}
-		r.Case(o.fingerprint, o.nontrivial)
-		for k, v := range o.counts {
-			r.Count(k, v)
-		}
-		for _, u := range o.unspec {
-			r.Unspecified(u)
-		}
-		for set, vals := range o.distinct {
-			for _, v := range vals {
-				r.Distinct(set, v)
-			}
-		}
-		if o.sample != nil && (i%53 == 0) {
-			r.Sample(o.sample)
-		}
-		for _, f := range o.findings {
-			r.Violation(f.key, f.what, f.witness)
-		}
+		flush(r, o, fmt.Sprintf("case %d", i), i%53 == 0)
 	}
+	// --- the discovery client's use of Match + ResolveConstraintsFields (discovery_test.go), sequential, in case order
+	discoveryLeg(t, r, cases, outs)
 	if r.Get("matches_found") == 0 || r.Get("matches_not_found") == 0 || r.Get("mutants_rejected") == 0 || r.Get("extraction_comparisons") == 0 || r.Get("submissions_validated") == 0 {
 		r.Fatalf("monitor observed too little: found=%d notfound=%d mutants_rejected=%d extraction=%d validated=%d", r.Get("matches_found"), r.Get("matches_not_found"),
 			r.Get("mutants_rejected"), r.Get("extraction_comparisons"), r.Get("submissions_validated"))
@@ -165,6 +148,31 @@ func TestCheck(t *testing.T) {
 	if r.Get("twin_forged_evaluated") == 0 || r.Get("twin_baseline_accepted") == 0 || r.Get("twin_forged_resolves_to_twin") == 0 {
 		r.Fatalf("monitor observed too little on id-colliding envelopes: forged=%d baseline_accepted=%d forged_resolves_to_twin=%d", r.Get("twin_forged_evaluated"),
 			r.Get("twin_baseline_accepted"), r.Get("twin_forged_resolves_to_twin"))
+	}
+}
+
+// flush hands what one evaluation collected to the run (always from the test's own goroutine, in case order).
+func flush(r *ev.Run, o *caseOut, name string, sample bool) {
+	if o.fatal != "" {
+		r.Fatalf("%s: %s", name, o.fatal)
+	}
+	r.Case(o.fingerprint, o.nontrivial)
+	for k, v := range o.counts {
+		r.Count(k, v)
+	}
+	for _, u := range o.unspec {
+		r.Unspecified(u)
+	}
+	for set, vals := range o.distinct {
+		for _, v := range vals {
+			r.Distinct(set, v)
+		}
+	}
+	if o.sample != nil && sample {
+		r.Sample(o.sample)
+	}
+	for _, f := range o.findings {
+		r.Violation(f.key, f.what, f.witness)
 	}
 }
 
@@ -575,6 +583,11 @@ func evaluate(r *ev.Run, in *caseIn) (out *caseOut) {
 	}
 	if contradictory {
 		return // bounds no number satisfies: what wallet and verifier should make of them is not decided by the property
+	}
+
+	// --- candidate for the discovery leg (run after all cases, discovery_test.go)
+	if caseUnspec == "" {
+		out.disc = discoveryCandidate(out, in, selPairs, byKey, sat)
 	}
 
 	// --- the presentation(s) and envelopes
@@ -1081,18 +1094,24 @@ func extractionDiffs(in *caseIn, got map[string]any, selPairs [][2]string, byKey
 }
 
 func compareExtraction(out *caseOut, in *caseIn, got map[string]any, selPairs [][2]string, byKey map[string]*cred, via string) {
+	compareExtractionAt(out, in, got, selPairs, byKey, via, "C12/extraction/", "extraction_comparisons")
+}
+
+// compareExtractionAt: keys below prefix, comparisons counted under counter. Returns the number of named fields compared.
+func compareExtractionAt(out *caseOut, in *caseIn, got map[string]any, selPairs [][2]string, byKey map[string]*cred, via, prefix, counter string) int {
 	diffs, unexpected, compared, sound := extractionDiffs(in, got, selPairs, byKey)
 	if !sound {
-		return // unsound mapping: reported elsewhere
+		return 0 // unsound mapping: reported elsewhere
 	}
-	out.count("extraction_comparisons", compared)
+	out.count(counter, compared)
 	for _, d := range diffs {
-		out.find("C12/extraction/"+d.class, fmt.Sprintf("%s: field %q is reported as %s, the credential holds %s", via, d.field, mustJSON(d.reported), mustJSON(d.want)),
+		out.find(prefix+d.class, fmt.Sprintf("%s: field %q is reported as %s, the credential holds %s", via, d.field, mustJSON(d.reported), mustJSON(d.want)),
 			map[string]any{"definition": json.RawMessage(in.raw), "mapping": selPairs, "field": d.field, "reported": d.reported, "allowed": d.want})
 	}
 	for _, id := range unexpected {
-		out.find("C12/extraction/unexpected-claim", fmt.Sprintf("%s reports a value for %q which is not a named field of a mapped descriptor", via, id), map[string]any{"definition": json.RawMessage(in.raw), "mapping": selPairs})
+		out.find(prefix+"unexpected-claim", fmt.Sprintf("%s reports a value for %q which is not a named field of a mapped descriptor", via, id), map[string]any{"definition": json.RawMessage(in.raw), "mapping": selPairs})
 	}
+	return compared
 }
 
 func extractionClass(f *rField, fr fieldResult) string {
